@@ -3,7 +3,9 @@
 package vsched
 
 import (
+	"encoding/json"
 	"fmt"
+	"os"
 	"sort"
 	"time"
 )
@@ -309,4 +311,46 @@ func (s *Stats) OutcomeList() []string {
 	}
 	sort.Strings(r)
 	return r
+}
+
+// ReplayFile re-runs the schedule stored in a replay artefact (written by
+// ev.Violation with detail.scenario and detail.choices) against the matching
+// scenario. It prints the trace and returns the violation message ("" if the
+// schedule shows no violation on this tree).
+func ReplayFile(path string, scs []Scenario) (string, error) {
+	b, err := os.ReadFile(path)
+	if err != nil {
+		return "", err
+	}
+	var f struct {
+		Detail struct {
+			Scenario string `json:"scenario"`
+			Choices  []int  `json:"choices"`
+		} `json:"detail"`
+	}
+	if err := json.Unmarshal(b, &f); err != nil {
+		return "", err
+	}
+	for _, sc := range scs {
+		if sc.Name != f.Detail.Scenario {
+			continue
+		}
+		if f.Detail.Choices == nil {
+			// a tree-level (After) violation has no single schedule: re-explore the scenario
+			st := Explore(sc, Config{Bound: -1, Cache: true, Iterate: true, Deadline: time.Now().Add(10 * time.Minute)})
+			for _, v := range st.Violations {
+				fmt.Println("re-explored:", v.Message)
+				return v.Message, nil
+			}
+			fmt.Println("re-explored: no violation")
+			return "", nil
+		}
+		v, o, tr := Replay(sc, f.Detail.Choices)
+		for _, l := range tr {
+			fmt.Println("  ", l)
+		}
+		fmt.Println("outcome:", o)
+		return v, nil
+	}
+	return "", fmt.Errorf("scenario %q is not part of this check's plan", f.Detail.Scenario)
 }
